@@ -169,7 +169,8 @@ fn gen_answer(t: &mut Tape, kinds: &[K], base: Option<&Vec<BG>>) -> Vec<BG> {
 
 /// does the rendered substitution mention some canonical variable `^0.k` more than once?
 fn shares_variable(r: &str) -> bool {
-    (0..8).any(|k| r.matches(&format!("^0.{}", k)).count() > 1)
+    // `r` is the Debug rendering of the mirror AST (chalk's own Debug hides alias arguments)
+    (0..8).any(|k| r.matches(&format!("Bound(0, {})", k)).count() > 1)
 }
 
 /// replace one randomly chosen sub-term by a variable or a small closed type
@@ -394,7 +395,7 @@ impl Property for C17 {
                         // "cannot invalidate" must mean: the current guidance already covers the new answer
                         // (the anti-unifier may still lose variable sharing when it merges, which only weakens)
                         if !inval && !from_s(&subst(a)).map(|am| instance_of(cm, &am)).unwrap_or(true) {
-                            let shared = if shares_variable(&format!("{:?}", cur.value)) { ":guidance-shares-a-variable" } else { "" };
+                            let shared = if shares_variable(&format!("{:?}", cm)) { ":guidance-shares-a-variable" } else { "" };
                             fails.push((format!("may-invalidate-false-but-answer-not-covered{}", shared), format!("may_invalidate({}, {:?}) = false, but the answer is not an instance of that guidance (merging gives {:?})", show(a), cur.value, next.value)));
                         }
                     }
@@ -418,7 +419,7 @@ impl Property for C17 {
                         if let (Some(nm), Some(cm)) = (from_s(&next.value), cm.as_ref()) {
                             let _ = &nm;
                             if !instance_of(cm, &inst) {
-                                let shared = if shares_variable(&format!("{:?}", cur0.value)) { ":guidance-shares-a-variable" } else { "" };
+                                let shared = if shares_variable(&format!("{:?}", cm)) { ":guidance-shares-a-variable" } else { "" };
                                 fails.push((format!("may-invalidate-false-but-instance-not-covered{}", shared), format!("may_invalidate({}, {:?}) = false, but its instance {} is not an instance of that guidance (merging gives {:?})", show(a), cur0.value, show(&inst), next.value)));
                                 break;
                             }
